@@ -112,7 +112,7 @@ def generate(seed: int, tier: str, phase: str) -> Dict[str, Any]:
     ops: List[Dict[str, Any]] = []
     n = r.choice([3, 4, 5, 6, 8, 10, 12])
     kinds = ["derive", "derive", "derive", "call", "call", "call", "call", "call_original", "sync",
-             "drop", "fleet"]
+             "drop", "fleet", "toggle_mode"]
     if phase == "faults":
         kinds += ["reset", "bad_call", "interrupt", "interrupt", "bad_call"]
     # swarm: random subset of kinds per run, always derive + call
@@ -140,6 +140,8 @@ def generate(seed: int, tier: str, phase: str) -> Dict[str, Any]:
             op.update(dst=r.randrange(16), src=r.randrange(16))
         elif k == "drop":
             op.update(j=r.randrange(16))
+        elif k == "toggle_mode":
+            op.update(j=r.randrange(16), train=r.random() < 0.5)
         elif k == "fleet":
             # second round limited to 6 members: more than 8 live modules of one class re-called
             # after a reset is the recorded finding D16 (probed in phase "known")
@@ -427,6 +429,15 @@ def execute(plan: Dict[str, Any]) -> Dict[str, Any]:
                     for jj, fm_ in enumerate(fleet[: op["second"]]):
                         checked_call(fm_, jj % 3, True, 0, where + f" fleet member {jj}, second round ({len(fleet)} live)")
                     probe("fleet_second_rounds")
+            elif k == "toggle_mode":
+                # train() / eval() on a transformed module between two calls: the programs use
+                # functional dropout with explicit flags, so the function must not change, but the
+                # guards on module.training make TorchDynamo recompile
+                m = pick(op["j"])
+                if m is None:
+                    continue
+                m.mod.train(op["train"])
+                probe("mode_toggles")
             elif k == "call_original":
                 got = tw.run(original, original, tw.clone_inputs(inputs[op["k"]]), 2)
                 want = tw.run(lambda *xs: plain_ref.run(original, xs), original, tw.clone_inputs(inputs[op["k"]]), 2)
